@@ -126,12 +126,27 @@ def run_threads(shard, mon, S, table):
             if got != want[(cc, sd, ur)]:
                 bad.append((cc, sd, ur, got))
 
+    unseeded_bad = []
+
+    def body_unseeded(t):
+        for k in range(60 if shard["tier"] == "quick" else 1500):
+            cc = jobs[(t * 7 + k) % len(jobs)][0]
+            o = observe(S.IBAN.random, cc)
+            if o.ok:
+                if R.expect_iban(str(o.value), table).verdict != R.ACCEPT:
+                    unseeded_bad.append((cc, "invalid:" + str(o.value)))
+            elif not o.is_a("GenerateRandomOverflowError"):
+                unseeded_bad.append((cc, f"{o.exc_name}: {o.exc}"))
+
     ts = [threading.Thread(target=body, args=(t,), daemon=True) for t in range(n_threads)]
+    ts += [threading.Thread(target=body_unseeded, args=(t,), daemon=True) for t in range(4)]
     for t in ts:
         t.start()
     for t in ts:
         t.join(900)
     sys.setswitchinterval(old)
+    for cc, what in unseeded_bad[:3]:
+        mon.viol("unseeded_draw_under_threads_failed", {"country": cc, "threads": len(ts)}, "valid IBAN or GenerateRandomOverflowError", what[:200])
     mon.ev(len(jobs) * n_threads)
     for j in jobs:
         mon.distinct(("thr", j))
@@ -169,10 +184,22 @@ def judge_draw(mon, S, table, cc, seedstr, use_registry, pins, allbank):
         got = getattr(ib, comp)
         if got != v:
             mon.viol(f"pinned_component_changed:{comp}:{'registry' if use_registry else 'noregistry'}", {**w, "iban": s}, v, got)
+    # reading the result (all accessors) must not influence the next equally seeded draw
+    for attr in ("bank_code", "branch_code", "account_code", "national_checksum_digits", "bank", "bic", "bank_name", "country", "in_sepa_zone", "spec", "formatted"):
+        observe(getattr, ib, attr)
+        observe(getattr, ib.bban, attr)
     # reproducibility in-process
     o2 = observe(S.IBAN.random, cc, random=Random(seedstr), use_registry=use_registry, **kw)
     if not o2.ok or str(o2.value) != s:
         mon.viol("same_seed_different_result_in_process", {**w, "first": s}, s, o2.brief())
+    if not pins:
+        # the documented parameter order, used positionally
+        o3 = observe(S.IBAN.random, cc, Random(seedstr), use_registry)
+        o4 = observe(S.BBAN.random, cc, Random(seedstr), use_registry)
+        if not o3.ok or str(o3.value) != s:
+            mon.viol("positional_arguments_change_result", {**w, "first": s}, s, o3.brief())
+        if not o4.ok or str(o4.value) != s[4:]:
+            mon.viol("positional_arguments_change_result:bban", {**w, "first": s}, s[4:], o4.brief())
     if use_registry and not pins and s[:2] in allbank and ib.bank is None:
         mon.viol("registry_draw_not_a_listed_bank", {**w, "iban": s}, "listed bank", None)
     if use_registry and not pins and s[:2] in allbank:
